@@ -845,6 +845,10 @@ def _get_position(node: ast.AST) -> _Position:
 
 def _get_charno(source: str, line_start_charnos: Sequence[int], lineno: int, col_offset: int) -> int:
     """Character number of an ast (lineno, col_offset) position. col_offset counts utf-8 bytes."""
+    if lineno > len(line_start_charnos):
+        # The line after the last line, e.g. for code that is inserted at the end of the file
+        return len(source)
+
     line_start = line_start_charnos[lineno - 1]
     if source.isascii():
         return line_start + col_offset
